@@ -270,22 +270,21 @@ TypeOK ==
 Promised(s) == {p \in Pods : s.alive[p] /\ (s.bound[p] \/ Live(s.br[p], s.lim))}
 TruthGroups(s, p) == IF Live(s.br[p], s.lim) /\ s.dev[p] # {} THEN s.dev[p] ELSE s.lab[p]
 
-\* every snapshot charges the pod of a live BindRequest to the selected node ...
+\* every snapshot keeps the GPU groups of a live BindRequest on its pod: exactly the groups the request selected
+C12_ChargedGroups ==
+  obs.k = "cycle" =>
+    \A p \in Pods : (obs.pre.up /\ obs.pre.alive[p] /\ Live(obs.pre.br[p], obs.pre.lim) /\ IsFrac(obs.pre, p))
+                      => obs.snap.grp[p] = obs.pre.dev[p]
+\* every snapshot charges the pod of a live BindRequest to the selected node: the pod is Binding there, every GPU
+\* group is charged the memory of the pods that hold it, a device that carries a group is not idle ...
 C12_Charged ==
   obs.k = "cycle" =>
     LET pre == obs.pre  snap == obs.snap IN
     /\ \A p \in Pods : (pre.alive[p] /\ ~pre.bound[p] /\ pre.up /\ Live(pre.br[p], pre.lim))
                          => snap.st[p] = "Binding" /\ snap.on[p]
-    /\ pre.up => snap.idle = IdleBy(pre, Promised(pre), TruthGroups) /\ snap.idle >= 0
-\* ... including its GPU groups: the pod holds exactly the groups its request selected, every group is charged
-\* the memory of the pods that hold it, and a device that carries a group is not idle
-C12_ChargedGroups ==
-  obs.k = "cycle" =>
-    LET pre == obs.pre  snap == obs.snap IN
-    pre.up =>
-      /\ \A p \in Pods : (pre.alive[p] /\ Live(pre.br[p], pre.lim) /\ IsFrac(pre, p)) => snap.grp[p] = pre.dev[p]
-      /\ \A d \in Slots : snap.mem[d] = UsedBy(pre, Promised(pre), TruthGroups, d)
-      /\ snap.whole = IdleWholeBy(pre, Promised(pre), TruthGroups)
+    /\ pre.up => /\ snap.idle = IdleBy(pre, Promised(pre), TruthGroups) /\ snap.idle >= 0
+                 /\ \A d \in Slots : snap.mem[d] = UsedBy(pre, Promised(pre), TruthGroups, d)
+                 /\ snap.whole = IdleWholeBy(pre, Promised(pre), TruthGroups)
 \* ... so no later cycle hands the capacity out again
 C12_NoDoubleBooking ==
   S.up => /\ \A d \in Slots : UsedBy(S, Promised(S), TruthGroups, d) <= Cap
